@@ -77,7 +77,7 @@ func genAlphabet(gen *vlib.G) {
 }
 
 func genUVRand(gen *vlib.G) {
-	kRej := vlib.Pick(gen, 48, 64) // the quick tier also prunes the parameter grid (quickRandPoint)
+	const kRej = 64
 	for _, sp := range uvSpecs() {
 		sp := sp
 		if sp.sampler == "" {
@@ -85,37 +85,9 @@ func genUVRand(gen *vlib.G) {
 		}
 		for _, p := range sp.grid(gen.Thorough()) {
 			p := p
-			if !gen.Thorough() && !quickRandPoint(sp, p) {
-				continue
-			}
 			gen.Case(pkey(sp, p), func(t *vlib.T) { checkUVRand(t, sp, p, kRej) })
 		}
 	}
-}
-
-// quickRandPoint prunes the rejection-sampler grid in the quick tier to the
-// points next to a branch constant of a sampler (all inversion samplers are kept).
-func quickRandPoint(sp uvSpec, p []float64) bool {
-	switch sp.name {
-	case "Beta":
-		// Gamma(alpha) and Gamma(beta): branches <0.2 (n/a), <1, =1, >1
-		in := func(v float64) bool { return v == 0.3 || v == 0.99 || v == 1 || v == 1.01 || v == 5 }
-		return in(p[0]) && in(p[1])
-	case "F":
-		in := func(v float64) bool { return v == 0.5 || v == 2 || v == 2.5 || v == 9 }
-		return in(p[0]) && in(p[1])
-	case "Gamma":
-		return p[1] == 1 || p[0] == 0.3 || p[0] == 2.5
-	case "InverseGamma":
-		return p[1] == 1 || p[0] == 0.3
-	case "StudentsT":
-		return p[1] == 1 && p[0] == 0 || p[2] == 1.01
-	case "AlphaStable":
-		return p[2] == 1 && p[3] == 0 || p[1] == 0.5
-	case "Binomial":
-		return p[1] != 0.97 && p[1] != 0.01
-	}
-	return true
 }
 
 func checkUVRand(t *vlib.T, sp uvSpec, p []float64, kRej int) {
@@ -158,7 +130,7 @@ func checkUVRand(t *vlib.T, sp uvSpec, p []float64, kRej int) {
 		if sp.name == "AlphaStable" && isFinite(cur) {
 			// location-scale family: the same answers with C = 1, Mu = 0 give the standardised
 			// variate x0, and x = C*x0 + Mu (+ (2/pi) Beta C log C when Alpha = 1).
-			ref := &gridSrc{a: src.a, idx: src.idx, cont: splitmix{pathSeed(src.idx)}, limit: drawCap}
+			ref := &gridSrc{a: src.a, idx: src.idx, cont: splitmix{pathSeed(src.idx)}, limit: drawCap, kinds: src.kinds}
 			x0 := sp.mk([]float64{p[0], p[1], 1, 0}, rand.Source(ref)).(hasRand).Rand()
 			want := p[2]*x0 + p[3]
 			if p[0] == 1 {
